@@ -253,7 +253,16 @@ func (vc *VC) wfVal(t types.Type, v Val) string {
 		return and(fs...)
 	case *types.Slice:
 		s := v.(*SliceV)
+		// A-MEM: no backing array has more than 2^48 elements, hence off+cap <= 2^48 (cap <= 2^48 was already stated).
+		// The intervals of the three integer leaves are recorded exactly like those of integer values of basic type
+		// (case *types.Basic below), so that index arithmetic over them needs no wrap-around function.
+		for _, x := range []string{s.Off, s.Len, s.Cap} {
+			if _, isC := constVal(x); !isC {
+				vc.setRange(x, big.NewInt(0), pow2(48))
+			}
+		}
 		return and(le("0", s.Arr), le("0", s.Off), le("0", s.Len), le(s.Len, s.Cap), le(s.Cap, "281474976710656"),
+			le(plus(s.Off, s.Cap), "281474976710656"),
 			implies(eq(s.Arr, "0"), and(eq(s.Cap, "0"), eq(s.Off, "0"))))
 	case *types.Array:
 		return le("1", v.(*SliceV).Arr)
